@@ -205,6 +205,8 @@ def build(reg):
     reg.add_loop(LoopContract(fn, 2, orient_inv_flip, modifies=['face.n2_id_', 'face.n3_id_']))
     reg.add(Contract(fn, PROP, pre=orient_pre, post=orient_post, suffix_loop=1, suffix_back=1, safety={'bounds'}, use=[volume_as_in_C12()], name=fn + '::<signed volume and flip>'))
     orient_lemmas(reg)
+    import meshops as M
+    reg.add(M.is_manifold_contract(PROP))
     reg.add(Contract('cell::initialize_cell_properties', PROP, post=gate_post, use=gate_callees(), setup=gate_setup, name='cell::initialize_cell_properties(gate)'))
     fn2 = 'simulation_initializer::triangulate_surface'
     reg.add_loop(LoopContract(fn2, 0, tri_inv, modifies=['*'], keep_names=['cell_type', 'cell_id']))
